@@ -1,6 +1,5 @@
-from .base.kd_compose_transform import KDComposeTransform
 from .base.kd_random_apply_base import KDRandomApplyBase
-from .base.kd_stochastic_transform import KDStochasticTransform
+from .base.kd_transform import KDTransform
 
 
 class KDRandomApply(KDRandomApplyBase):
@@ -9,8 +8,8 @@ class KDRandomApply(KDRandomApplyBase):
         self.transform = transform
 
     def set_rng(self, rng):
-        if isinstance(transform, (KDStochasticTransform, KDComposeTransform)):
-            transform.set_rng(rng)
+        if isinstance(self.transform, KDTransform):
+            self.transform.set_rng(rng)
         return super().set_rng(rng)
 
     def forward(self, x, ctx):
